@@ -93,6 +93,8 @@ def run(names, props, tier, seeds) -> int:
         try:
             for pid in (props or [meta["property"]]):
                 cmd = [os.path.join(ROOT, "check"), pid, "--tier", tier, "--no-evidence"]
+                if os.environ.get("SEEDED_NO_SHRINK"):
+                    cmd.append("--no-shrink")   # (the replay is still written and verified twice; only the minimisation is skipped)
                 if seeds:
                     cmd += ["--seeds", str(seeds)]
                 t0 = time.time()
